@@ -303,6 +303,11 @@ func (p *Program) verifyFunc(spec *FuncSpec) (u *Unit) {
 	if h := unitPosts[u.Name]; h != nil {
 		h(c, u)
 	}
+	for _, a := range spec.Asserts {
+		if !c.assertSeen[a] {
+			c.addObl(Obl{Name: fmt.Sprintf("%s/assert[%s]/anchor", u.Name, a.Label), Kind: "assert", Guard: "true", Goal: "false", Pos: u.File, Text: "the statement `" + a.At + "` the assertion is attached to exists in the function"})
+		}
+	}
 	if spec.NoSafety {
 		var keep []*Obl
 		for _, ob := range c.obls {
